@@ -928,10 +928,7 @@ func r016(c *an.Ctx) {
 	if fn := c.Prog.Func("pkg/masks", "FieldUpdater", "Validate"); fn != nil {
 		all := true
 		n := 0
-		for _, r := range an.Returns(fn) {
-			if provablyNilAt(r.Results[0], r) {
-				continue
-			}
+		for _, r := range errorReturnsDeep(fn) {
 			// errors about the server-side reset mask are not client errors
 			if guardByField(r, "resetMask") {
 				continue
@@ -1048,28 +1045,53 @@ func r017(c *an.Ctx) {
 		return
 	}
 	name := "(*pkg/resource.Collection).genID"
-	// find where the interceptor is applied to a candidate: either inside the exists-probe only (defect) or to the result
-	probeOnly, resultMapped := false, false
+	// mapped: every value v can take is idInterceptor(x), or a raw id on a path where no interceptor is configured
+	isInterceptorCall := func(v ssa.Value) bool {
+		call, ok := v.(*ssa.Call)
+		if !ok || an.CalleeName(call) != "dynamic" {
+			return false
+		}
+		_, _, fld, isF := an.FieldOf(call.Call.Value)
+		return isF && fld == "idInterceptor"
+	}
+	mapped := func(v ssa.Value) (all bool, any bool) {
+		all = true
+		for _, lf := range an.PhiLeaves(v) {
+			if isInterceptorCall(lf.Val) {
+				any = true
+				continue
+			}
+			rawOK := false
+			for _, e := range lf.Conds {
+				x, trueMeansNil, isNil := an.NilTest(e.If.Cond)
+				if !isNil || e.Branch != trueMeansNil {
+					continue
+				}
+				if _, _, fld, isF := an.FieldOf(x); isF && fld == "idInterceptor" {
+					rawOK = true
+				}
+			}
+			if !rawOK {
+				all = false
+			}
+		}
+		return
+	}
+	resultMapped, resultAny := true, false
+	for _, r := range an.Returns(gen) {
+		if !provablyNilAt(r.Results[1], r) {
+			continue // error path
+		}
+		a, b := mapped(r.Results[0])
+		resultMapped = resultMapped && a
+		resultAny = resultAny || b
+	}
+	resultMapped = resultMapped && resultAny
+	probeOnly := false
 	for _, f := range an.WithClosures(gen) {
 		an.Instrs(f, func(in ssa.Instruction) {
-			call, ok := in.(*ssa.Call)
-			if !ok || an.CalleeName(call) != "dynamic" {
-				return
-			}
-			if _, _, fld, ok := an.FieldOf(call.Call.Value); !ok || fld != "idInterceptor" {
-				return
-			}
-			if f != gen {
+			if call, ok := in.(*ssa.Call); ok && isInterceptorCall(call) {
 				probeOnly = true
-			} else {
-				// applied to GenerateUniqueId's result and returned
-				for _, r := range an.Returns(gen) {
-					for _, v := range an.ValuesAt(r.Results[0]) {
-						if v == ssa.Value(call) {
-							resultMapped = true
-						}
-					}
-				}
 			}
 		})
 	}
@@ -1088,26 +1110,8 @@ func r017(c *an.Ctx) {
 				return
 			}
 			nProbe++
-			for _, lf := range an.PhiLeaves(lk.Index) {
-				if call, isCall := lf.Val.(*ssa.Call); isCall && an.CalleeName(call) == "dynamic" {
-					if _, _, fld, isF := an.FieldOf(call.Call.Value); isF && fld == "idInterceptor" {
-						continue
-					}
-				}
-				// the raw candidate: only where no interceptor is configured
-				rawOK := false
-				for _, e := range lf.Conds {
-					x, trueMeansNil, isNil := an.NilTest(e.If.Cond)
-					if !isNil || e.Branch != trueMeansNil {
-						continue
-					}
-					if _, _, fld, isF := an.FieldOf(x); isF && fld == "idInterceptor" {
-						rawOK = true
-					}
-				}
-				if !rawOK {
-					probeMapped = false
-				}
+			if all, _ := mapped(lk.Index); !all {
+				probeMapped = false
 			}
 		})
 	}
